@@ -1,7 +1,6 @@
 package main
 
 import (
-	"runtime"
 	"bufio"
 	"bytes"
 	"encoding/json"
@@ -10,6 +9,7 @@ import (
 	"os"
 	"os/exec"
 	"path/filepath"
+	"runtime"
 	"sort"
 	"strconv"
 	"strings"
@@ -20,15 +20,15 @@ import (
 // ---- property map (/verif/props.json) ----
 
 type BoundedSpec struct {
-	Pkg      string   `json:"pkg"`   // directory below /repo ("." for the root package)
-	Test     string   `json:"test"`  // test function name
-	Files    []string `json:"files"` // test sources below /verif/bounded to inject
-	Clauses  []string `json:"clauses"`
-	Domain   string   `json:"domain"`
-	QuickS   int      `json:"quick_timeout_s"`
-	ThoroS   int      `json:"thorough_timeout_s"`
-	Race     bool     `json:"race"`
-	Extra    []string `json:"extra_pkgs"` // oracle packages to inject (dirs below /verif/oracle)
+	Pkg     string   `json:"pkg"`   // directory below /repo ("." for the root package)
+	Test    string   `json:"test"`  // test function name
+	Files   []string `json:"files"` // test sources below /verif/bounded to inject
+	Clauses []string `json:"clauses"`
+	Domain  string   `json:"domain"`
+	QuickS  int      `json:"quick_timeout_s"`
+	ThoroS  int      `json:"thorough_timeout_s"`
+	Race    bool     `json:"race"`
+	Extra   []string `json:"extra_pkgs"` // oracle packages to inject (dirs below /verif/oracle)
 }
 
 type PropSpec struct {
@@ -67,14 +67,14 @@ type Failure struct {
 }
 
 type BoundedResult struct {
-	Prop        string            `json:"prop"`
-	Clause      string            `json:"clause"`
-	Evaluations int               `json:"evaluations"`
-	Nontrivial  int               `json:"nontrivial"`
-	Exhaustive  bool              `json:"exhaustive"`
-	Domain      string            `json:"domain"`
-	Samples     []string          `json:"samples"`
-	Failures    []BoundedFailure  `json:"failures"`
+	Prop        string           `json:"prop"`
+	Clause      string           `json:"clause"`
+	Evaluations int              `json:"evaluations"`
+	Nontrivial  int              `json:"nontrivial"`
+	Exhaustive  bool             `json:"exhaustive"`
+	Domain      string           `json:"domain"`
+	Samples     []string         `json:"samples"`
+	Failures    []BoundedFailure `json:"failures"`
 }
 
 type BoundedFailure struct {
@@ -584,7 +584,7 @@ func cmdCheck(args []string) int {
 			trusted = append(trusted, "unmodelled: "+n)
 		}
 		sort.Strings(trusted)
-		trusted = append([]string{"govc (this VC generator) and go/ssa as the semantics of the supported Go subset", "z3 4.8.12, z3 5.1.0, cvc5 1.0 (one unsat answer discharges an obligation)", "int as mathematical integer (no overflow), float64 as real"}, trusted...)
+		trusted = append([]string{"govc (this VC generator) and go/ssa as the semantics of the supported Go subset", "z3 4.8.12, z3 5.1.0, cvc5 1.0 (one unsat answer discharges an obligation)", "int as mathematical integer (no overflow), float64 as real", "facts the generator supplies at every loop head as Go semantics, not as invariants: the position of a range over a slice/array/integer lies within the length taken before the loop; a local slice only ever assigned nil, make, a literal, a re-slice of itself or append to itself holds storage allocated by this call"}, trusted...)
 		var fns []string
 		for f := range e.funcsUnderContract {
 			fns = append(fns, f)
@@ -595,18 +595,18 @@ func cmdCheck(args []string) int {
 			"checker_cmd":  fmt.Sprintf("cd /verif && ./check %s --tier %s", *prop, *tier),
 			"trusted_base": trusted,
 			"evaluations":  evals, "distinct_nontrivial": nontriv,
-			"rule":         "bounded back end: each clause's generator counts a case as non-trivial by the rule stated in its domain text; obligations: one per contract clause / panic site / loop invariant step, each possibly several path queries",
-			"samples":      samples,
-			"explanation":  ps.Explanation,
+			"rule":                     "bounded back end: each clause's generator counts a case as non-trivial by the rule stated in its domain text; obligations: one per contract clause / panic site / loop invariant step, each possibly several path queries",
+			"samples":                  samples,
+			"explanation":              ps.Explanation,
 			"functions_under_contract": fns,
-			"lemmas":       ps.Lemmas,
-			"per_obligation": perObl,
-			"bounded":      bounded,
-			"bounded_cmds": bcmds,
-			"known_findings_printed": knownPrinted,
+			"lemmas":                   ps.Lemmas,
+			"per_obligation":           perObl,
+			"bounded":                  bounded,
+			"bounded_cmds":             bcmds,
+			"known_findings_printed":   knownPrinted,
 			"undecided_contract_drift": undecided,
-			"witness_runs":           wreports,
-			"solver_timeout_s": secs,
+			"witness_runs":             wreports,
+			"solver_timeout_s":         secs,
 		}
 		if len(bresults) > 0 && nObl == 0 {
 			cov["exhaustive"] = exhaustiveAll
@@ -649,4 +649,3 @@ func flagSet(fs *flag.FlagSet, name string) bool {
 	})
 	return set
 }
-
